@@ -438,6 +438,17 @@ def target_set_label():
                     return not self.__eq__(o)
                 __hash__ = None
 
+                # the same questions asked through the str methods instead of all(map(str.isascii, ...))
+                def isascii(self):
+                    v = DF.ORACLE.decide("all", f"all(isascii,{self.t})")
+                    asked.append(("isascii", self.t, None, v))
+                    return v
+
+                def isdigit(self):
+                    v = DF.ORACLE.decide("all", f"all(isdigit,{self.t})")
+                    asked.append(("isdigit", self.t, None, v))
+                    return v
+
             class StrNS:
                 isascii, isdigit = "isascii", "isdigit"
 
